@@ -106,8 +106,8 @@ SPEC = {
     "pid": "C10",
     "coq_targets": ["Props/C10.vo", "Extract/ExC10.vo"],
     "bin": "c10",
-    "sizes": {"quick": 600, "thorough": 15000},
-    "min_cases": {"quick": 590, "thorough": 14700},
+    "sizes": {"quick": 600, "thorough": 12000},
+    "min_cases": {"quick": 590, "thorough": 11700},
     "search_n": 3000,
     "search_rounds": 2,
     "runner_timeout": 7200,
